@@ -242,7 +242,7 @@ def expr_cells(tier):
     for rule, (bad, good) in EXPR_RULES.items():
         for pos, tmpl in EXPR_POSITIONS.items():
             for cname, ctx in ctxs.items():
-                if tier != "thorough" and cname not in ("main", "method") and pos not in ("initialiser", "call-argument", "if-condition", "for-update"):
+                if False and tier != "thorough" and cname not in ("main", "method") and pos not in ("initialiser", "call-argument", "if-condition", "for-update"):   # round 9: the full matrix is cheap enough for the quick tier
                     continue
                 if rule == "void-call-as-operand" and pos in ("expression-statement", "for-update-whole"):
                     continue   # calling a void function as a statement is legal
@@ -335,7 +335,7 @@ def stmt_cells(tier):
     for rule, (bad, good) in STMT_RULES.items():
         for wname, wrap in STMT_WRAPS.items():
             for cname, ctx in ctxs.items():
-                if tier != "thorough" and cname not in ("main", "method", "constructor") and wname != "plain":
+                if False and tier != "thorough" and cname not in ("main", "method", "constructor") and wname != "plain":
                     continue
                 if cname == "quantum-function" and ("qubit" in bad or "qubit" in good):
                     continue
